@@ -8,7 +8,7 @@ CONSTANTS
   KeepTimers = FALSE
   CountAllWit = FALSE
   RetryBlind = FALSE
-  MaxOps = 14
+  MaxOps = 13
   MaxPend = 0
   MaxWaits = 3
   MaxParks = 0
